@@ -25,6 +25,12 @@ use crate::{
   dds::adapters::no_key::SerializerAdapter,
   serialization::{deserialize_from_cdr_with_rep_id, CDRSerializerAdapter},
   structure::guid::GuidPrefix,
+  discovery::{sedp_messages::Endpoint_GUID, spdp_participant_data::Participant_GUID},
+  security::{
+    EndpointSecurityAttributesMask, EndpointSecurityAttributesMaskFlags, EndpointSecurityInfo,
+    ParticipantSecurityAttributesMask, ParticipantSecurityAttributesMaskFlags, ParticipantSecurityInfo,
+    PluginSecurityAttributesMask,
+  },
   messages::{
     protocol_version::ProtocolVersion,
     submessages::elements::{parameter::Parameter, parameter_list::ParameterList},
@@ -211,6 +217,30 @@ fn gen_locator(r: &mut Rng, wf: bool) -> Locator {
   }
 }
 
+fn gen_participant_secinfo(r: &mut Rng) -> ParticipantSecurityInfo {
+  let bits = (r.next() as u32) & 0x8000_0007;
+  ParticipantSecurityInfo {
+    participant_security_attributes: ParticipantSecurityAttributesMask(
+      enumflags2::BitFlags::<ParticipantSecurityAttributesMaskFlags>::from_bits_truncate(bits),
+    ),
+    plugin_participant_security_attributes: PluginSecurityAttributesMask(r.next() as u32),
+  }
+}
+
+fn gen_endpoint_secinfo(r: &mut Rng) -> EndpointSecurityInfo {
+  let bits = (r.next() as u32) & 0x8000_007F;
+  EndpointSecurityInfo {
+    endpoint_security_attributes: EndpointSecurityAttributesMask(
+      enumflags2::BitFlags::<EndpointSecurityAttributesMaskFlags>::from_bits_truncate(bits),
+    ),
+    plugin_endpoint_security_attributes: PluginSecurityAttributesMask(if r.chance(1, 2) {
+      0x8000_0000
+    } else {
+      r.next() as u32
+    }),
+  }
+}
+
 fn gen_locators(r: &mut Rng, nonempty: bool, wf: bool) -> Vec<Locator> {
   if !nonempty {
     return vec![];
@@ -243,10 +273,10 @@ fn gen_string(r: &mut Rng) -> String {
   s
 }
 
-const SPDP_FIELDS: usize = 9;
+const SPDP_FIELDS: usize = 10;
 
 /// mask bits: 0 expects_inline_qos, 1..4 the four locator lists non-empty, 5 lease, 6 liveliness
-/// count non-zero, 7 builtin endpoint qos, 8 entity name
+/// count non-zero, 7 builtin endpoint qos, 8 entity name, 9 security info
 fn gen_spdp(r: &mut Rng, mask: u32, wf: bool) -> SpdpDiscoveredParticipantData {
   let p = |i: usize| mask & (1 << i) != 0;
   SpdpDiscoveredParticipantData {
@@ -281,11 +311,11 @@ fn gen_spdp(r: &mut Rng, mask: u32, wf: bool) -> SpdpDiscoveredParticipantData {
       None
     },
     entity_name: if p(8) { Some(gen_string(r)) } else { None },
-    // feature "security": not modelled, always absent
+    // feature "security": tokens and property list are not modelled, always absent
     identity_token: None,
     permissions_token: None,
     property: None,
-    security_info: None,
+    security_info: if p(9) { Some(gen_participant_secinfo(r)) } else { None },
   }
 }
 
@@ -308,7 +338,7 @@ const ENDPOINT_QOS_MASK: u32 = 0xFFF & !(1 << 9) & !(1 << 10); // no history, no
 const TOPIC_QOS_MASK: u32 = 0xFFF & !(1 << 6); // no time based filter
 
 /// mask bits 0..11 qos, 12 expects_inline_qos, 13 unicast, 14 multicast, 15 participant key,
-/// 16 content filter
+/// 16 content filter, 17 security info
 fn gen_reader(r: &mut Rng, mask: u32, wf: bool) -> DiscoveredReaderData {
   let p = |i: usize| mask & (1 << i) != 0;
   let guid = gen_guid(r);
@@ -322,14 +352,14 @@ fn gen_reader(r: &mut Rng, mask: u32, wf: bool) -> DiscoveredReaderData {
       gen_string(r),
       gen_string(r),
       &qos,
-      None,
+      if p(17) { Some(gen_endpoint_secinfo(r)) } else { None },
     ),
     content_filter: if p(16) { Some(gen_content_filter(r)) } else { None },
   }
 }
 
 /// mask bits 0..11 qos, 12 max size, 13 unicast, 14 multicast, 15 participant key,
-/// 16 service instance name, 17 related reader, 18 topic aliases
+/// 16 service instance name, 17 related reader, 18 topic aliases, 19 security info
 fn gen_writer(r: &mut Rng, mask: u32, wf: bool) -> DiscoveredWriterData {
   let p = |i: usize| mask & (1 << i) != 0;
   let guid = gen_guid(r);
@@ -341,7 +371,7 @@ fn gen_writer(r: &mut Rng, mask: u32, wf: bool) -> DiscoveredWriterData {
     gen_string(r),
     gen_string(r),
     &qos,
-    None,
+    if p(19) { Some(gen_endpoint_secinfo(r)) } else { None },
   );
   if p(16) {
     pbtd.service_instance_name = Some(gen_string(r));
@@ -604,9 +634,21 @@ fn coq_locators(ls: &[Locator]) -> String {
   util::list(ls.iter().map(coq_locator))
 }
 
+fn coq_psec(s: &ParticipantSecurityInfo) -> String {
+  format!(
+    "({}, {})",
+    s.participant_security_attributes.0.bits(),
+    s.plugin_participant_security_attributes.0
+  )
+}
+
+fn coq_esec(s: &EndpointSecurityInfo) -> String {
+  format!("({}, {})", s.endpoint_security_attributes.0.bits(), s.plugin_endpoint_security_attributes.0)
+}
+
 fn coq_spdp(v: &SpdpDiscoveredParticipantData) -> String {
   format!(
-    "(Build_spdp ({}, {}) ({}, {}) {} {} {} {} {} {} {} {} {} {} {})",
+    "(Build_spdp ({}, {}) ({}, {}) {} {} {} {} {} {} {} {} {} {} {} {})",
     v.protocol_version.major,
     v.protocol_version.minor,
     v.vendor_id.vendor_id[0],
@@ -622,6 +664,7 @@ fn coq_spdp(v: &SpdpDiscoveredParticipantData) -> String {
     util::z(v.manual_liveliness_count as i128),
     util::opt(v.builtin_endpoint_qos.map(|q| format!("{}", debug_u32(&q)))),
     util::opt(v.entity_name.as_ref().map(|s| coq_str(s))),
+    util::opt(v.security_info.as_ref().map(coq_psec)),
   )
 }
 
@@ -643,7 +686,7 @@ fn coq_content_filter(c: &ContentFilterProperty) -> String {
 fn coq_reader(v: &DiscoveredReaderData) -> String {
   let s = &v.subscription_topic_data;
   format!(
-    "(Build_reader_data {} {} {} {} {} {} {} {} {} {})",
+    "(Build_reader_data {} {} {} {} {} {} {} {} {} {} {})",
     coq_guid(&v.reader_proxy.remote_reader_guid),
     util::b(v.reader_proxy.expects_inline_qos),
     coq_locators(&v.reader_proxy.unicast_locator_list),
@@ -654,13 +697,14 @@ fn coq_reader(v: &DiscoveredReaderData) -> String {
     coq_str(s.type_name()),
     coq_qos(&s.qos()),
     util::opt(v.content_filter.as_ref().map(coq_content_filter)),
+    util::opt(s.security_info().as_ref().map(coq_esec)),
   )
 }
 
 fn coq_writer(v: &DiscoveredWriterData) -> String {
   let p = &v.publication_topic_data;
   format!(
-    "(Build_writer_data {} {} {} {} {} {} {} {} {} {} {} {})",
+    "(Build_writer_data {} {} {} {} {} {} {} {} {} {} {} {} {})",
     coq_guid(&v.writer_proxy.remote_writer_guid),
     coq_locators(&v.writer_proxy.unicast_locator_list),
     coq_locators(&v.writer_proxy.multicast_locator_list),
@@ -673,6 +717,7 @@ fn coq_writer(v: &DiscoveredWriterData) -> String {
     util::opt(p.service_instance_name.as_ref().map(|s| coq_str(s))),
     coq_opt_guid(&p.related_datareader_key),
     util::opt(p.topic_aliases.as_ref().map(|l| util::list(l.iter().map(|s| coq_str(s))))),
+    util::opt(p.security_info.as_ref().map(coq_esec)),
   )
 }
 
@@ -731,6 +776,8 @@ enum Val {
   Writer(DiscoveredWriterData),
   Topic(DiscoveredTopicData),
   Pmd(ParticipantMessageData),
+  PKey(GUID),
+  EKey(GUID),
 }
 
 #[derive(Clone, Copy, PartialEq, Eq, Debug)]
@@ -741,6 +788,8 @@ enum Kind {
   Writer,
   Topic,
   Pmd,
+  PKey,
+  EKey,
 }
 
 impl Kind {
@@ -752,6 +801,8 @@ impl Kind {
       Kind::Writer => "KWriter",
       Kind::Topic => "KTopic",
       Kind::Pmd => "KPmd",
+      Kind::PKey => "(KKey ParticipantKey)",
+      Kind::EKey => "(KKey EndpointKey)",
     }
   }
 }
@@ -765,6 +816,8 @@ impl Val {
       Val::Writer(_) => Kind::Writer,
       Val::Topic(_) => Kind::Topic,
       Val::Pmd(_) => Kind::Pmd,
+      Val::PKey(_) => Kind::PKey,
+      Val::EKey(_) => Kind::EKey,
     }
   }
   fn coq(&self) -> String {
@@ -775,6 +828,8 @@ impl Val {
       Val::Writer(v) => format!("(VWriter {})", coq_writer(v)),
       Val::Topic(v) => format!("(VTopic {})", coq_topic(v)),
       Val::Pmd(v) => format!("(VPmd {})", coq_pmd(v)),
+      Val::PKey(g) => format!("(VKey ParticipantKey {})", coq_guid(g)),
+      Val::EKey(g) => format!("(VKey EndpointKey {})", coq_guid(g)),
     }
   }
   /// the real serialiser
@@ -789,6 +844,8 @@ impl Val {
       Val::Reader(v) => v.to_pl_cdr_bytes(rep_id(e)).ok().map(|b| b.to_vec()),
       Val::Writer(v) => v.to_pl_cdr_bytes(rep_id(e)).ok().map(|b| b.to_vec()),
       Val::Topic(v) => v.to_pl_cdr_bytes(rep_id(e)).ok().map(|b| b.to_vec()),
+      Val::PKey(g) => Participant_GUID(*g).to_pl_cdr_bytes(rep_id(e)).ok().map(|b| b.to_vec()),
+      Val::EKey(g) => Endpoint_GUID(*g).to_pl_cdr_bytes(rep_id(e)).ok().map(|b| b.to_vec()),
       Val::Pmd(v) => match e {
         Endianness::LittleEndian => {
           CDRSerializerAdapter::<ParticipantMessageData, byteorder::LittleEndian>::to_bytes(v)
@@ -824,6 +881,8 @@ fn decode(kind: Kind, e: Endianness, bytes: &[u8]) -> Option<Val> {
     Kind::Reader => DiscoveredReaderData::from_pl_cdr_bytes(bytes, rep_id(e)).ok().map(Val::Reader),
     Kind::Writer => DiscoveredWriterData::from_pl_cdr_bytes(bytes, rep_id(e)).ok().map(Val::Writer),
     Kind::Topic => DiscoveredTopicData::from_pl_cdr_bytes(bytes, rep_id(e)).ok().map(Val::Topic),
+    Kind::PKey => Participant_GUID::from_pl_cdr_bytes(bytes, rep_id(e)).ok().map(|k| Val::PKey(k.0)),
+    Kind::EKey => Endpoint_GUID::from_pl_cdr_bytes(bytes, rep_id(e)).ok().map(|k| Val::EKey(k.0)),
     Kind::Pmd => {
       let rid = match e {
         Endianness::LittleEndian => RepresentationIdentifier::CDR_LE,
@@ -927,10 +986,60 @@ fn emit_raw(out: &mut CaseOut, idx: usize, e: Endianness, kind: Kind, bytes: &[u
   out.push(idx, case, obs, &tags, nontrivial);
 }
 
+/// structured damage on the parameter level (real reader and writer do the parsing/re-writing):
+/// drop a parameter (-> defaults / MissingField), duplicate one (-> first occurrence wins, get_all
+/// collects), swap two, or replace a value by a shorter/longer one
+fn mutate_params(r: &mut Rng, e: Endianness, bytes: &[u8]) -> Option<(Vec<u8>, &'static str)> {
+  let mut pl = ParameterList::read_from_buffer_with_ctx(e, bytes).ok()?;
+  let n = pl.parameters.len();
+  if n == 0 {
+    return None;
+  }
+  let i = r.below(n as u64) as usize;
+  let how = match r.below(5) {
+    0 => {
+      pl.parameters.remove(i);
+      "drop_param"
+    }
+    1 => {
+      let p = pl.parameters[i].clone();
+      let at = r.below(n as u64 + 1) as usize;
+      pl.parameters.insert(at, p);
+      "dup_param"
+    }
+    2 => {
+      let mut p = pl.parameters[i].clone();
+      if !p.value.is_empty() {
+        let k = r.below(p.value.len() as u64) as usize;
+        p.value[k] = p.value[k].wrapping_add(1 + r.below(3) as u8);
+      }
+      let at = r.below(n as u64 + 1) as usize;
+      pl.parameters.insert(at, p);
+      "dup_param_modified"
+    }
+    3 => {
+      let j = r.below(n as u64) as usize;
+      pl.parameters.swap(i, j);
+      "swap_params"
+    }
+    _ => {
+      let l = pl.parameters[i].value.len();
+      let nl = match r.below(3) {
+        0 => l.saturating_sub(4),
+        1 => l / 2,
+        _ => l + 4,
+      };
+      pl.parameters[i].value.resize(nl, 0);
+      "resize_value"
+    }
+  };
+  pl.serialize_to_bytes(e).ok().map(|b| (b.to_vec(), how))
+}
+
 /// hostile stream: damage a valid encoding, or random bytes
-fn mutate(r: &mut Rng, bytes: &[u8]) -> (Vec<u8>, &'static str) {
+fn mutate(r: &mut Rng, e: Endianness, bytes: &[u8]) -> (Vec<u8>, &'static str) {
   let mut b = bytes.to_vec();
-  match r.below(7) {
+  match r.below(12) {
     0 => {
       let n = r.below(b.len() as u64 + 1) as usize;
       b.truncate(n);
@@ -972,6 +1081,18 @@ fn mutate(r: &mut Rng, bytes: &[u8]) -> (Vec<u8>, &'static str) {
       }
       (b, "drop_word")
     }
+    6 => {
+      // bytes that matter to the UTF-8 validator, anywhere (strings are a good part of the bytes)
+      if !b.is_empty() {
+        let i = r.below(b.len() as u64) as usize;
+        b[i] = *r.pick(&[0x80u8, 0xbf, 0xc0, 0xc1, 0xc2, 0xe0, 0xed, 0xf0, 0xf4, 0xf5, 0xff, 0xa0, 0x9f, 0x90, 0x8f]);
+      }
+      (b, "utf8_byte")
+    }
+    7 | 8 | 9 | 10 => match mutate_params(r, e, bytes) {
+      Some(x) => x,
+      None => (b, "unchanged"),
+    },
     _ => {
       let n = 4 * r.below(8) as usize;
       ((0..n).map(|_| *r.pick(&[0u8, 0, 1, 4, 0x1d, 0x1f, 6, 0x40, 0xff, 8])).collect(), "random")
@@ -988,7 +1109,7 @@ fn gen_endianness(r: &mut Rng) -> Endianness {
 }
 
 /// parameters that only the security build reads and the model does not cover
-const UNMODELLED_PIDS: [u16; 5] = [0x1001, 0x1002, 0x0059, 0x1005, 0x1004];
+const UNMODELLED_PIDS: [u16; 3] = [0x1001, 0x1002, 0x0059];
 
 fn has_unmodelled_pid(e: Endianness, bytes: &[u8]) -> bool {
   match ParameterList::read_from_buffer_with_ctx(e, bytes) {
@@ -1040,7 +1161,7 @@ fn corpus() -> Vec<(Endianness, Val, Ins)> {
   // SPDP: nothing optional / everything, entity names of every length mod 4
   for e in [le, be] {
     v.push((e, Val::Spdp(gen_spdp(&mut r, 0, true)), vec![]));
-    v.push((e, Val::Spdp(gen_spdp(&mut r, 0x1ff, true)), vec![(2, 0x8000, vec![7; 5])]));
+    v.push((e, Val::Spdp(gen_spdp(&mut r, 0x3ff, true)), vec![(2, 0x8000, vec![7; 5])]));
     for name in ["", "a", "ab", "abc", "abcd", "é", "€", "𝄞", "a\0"] {
       let mut p = gen_spdp(&mut r, 0, true);
       p.entity_name = Some(name.to_string());
@@ -1056,7 +1177,7 @@ fn corpus() -> Vec<(Endianness, Val, Ins)> {
     v.push((e, Val::Spdp(p), vec![]));
     // writer_rpc_fields: the witness of C15_writer_old_refuted (fields written but not read back
     // before the repair) and its neighbours
-    for m in [1u32 << 16, 1 << 17, 1 << 18, 7 << 16, 0, 0x7FFFF] {
+    for m in [1u32 << 16, 1 << 17, 1 << 18, 7 << 16, 0, 0xFFFFF] {
       let mut w = gen_writer(&mut r, m, true);
       if m == 1 << 16 {
         w.publication_topic_data.service_instance_name = Some("svc".to_string());
@@ -1065,7 +1186,9 @@ fn corpus() -> Vec<(Endianness, Val, Ins)> {
     }
     // reader / topic / participant message: nothing optional, everything optional
     v.push((e, Val::Reader(gen_reader(&mut r, 0, true)), vec![]));
-    v.push((e, Val::Reader(gen_reader(&mut r, 0x1FFFF, true)), vec![(0, 0xFF00, vec![0; 12])]));
+    v.push((e, Val::Reader(gen_reader(&mut r, 0x3FFFF, true)), vec![(0, 0xFF00, vec![0; 12])]));
+    v.push((e, Val::PKey(gen_guid(&mut r)), vec![(0, 0x8000, vec![1; 4])]));
+    v.push((e, Val::EKey(gen_guid(&mut r)), vec![(1, 0x8000, vec![1; 4])]));
     v.push((e, Val::Topic(gen_topic(&mut r, 0)), vec![]));
     v.push((e, Val::Topic(gen_topic(&mut r, 0x1FFF)), vec![(1, 0x8100, vec![])]));
     v.push((e, Val::Pmd(gen_pmd(&mut r)), vec![]));
@@ -1123,22 +1246,22 @@ fn gen_value(r: &mut Rng, k: usize) -> (Val, Vec<String>) {
     }
     4 | 5 | 6 => {
       let j = j * 3 + (k % 16 - 4) as u32;
-      let mask = (j.wrapping_mul(40503) >> 3) & 0x1FF;
+      let mask = (j.wrapping_mul(40503) >> 3) & 0x3FF;
       let mut tags = mask_tags("spdp", mask, 0, SPDP_FIELDS);
       wf_tag(&mut tags);
       (Val::Spdp(gen_spdp(r, mask, wf)), tags)
     }
     7 | 8 | 9 => {
       let j = j * 3 + (k % 16 - 7) as u32;
-      let mask = (j.wrapping_mul(2654435761) >> 9) & 0x1FFFF;
-      let mut tags = mask_tags("reader", mask, 12, 17);
+      let mask = (j.wrapping_mul(2654435761) >> 9) & 0x3FFFF;
+      let mut tags = mask_tags("reader", mask, 12, 18);
       wf_tag(&mut tags);
       (Val::Reader(gen_reader(r, mask, wf)), tags)
     }
     10 | 11 | 12 => {
       let j = j * 3 + (k % 16 - 10) as u32;
-      let mask = (j.wrapping_mul(2654435761) >> 8) & 0x7FFFF;
-      let mut tags = mask_tags("writer", mask, 12, 19);
+      let mask = (j.wrapping_mul(2654435761) >> 8) & 0xFFFFF;
+      let mut tags = mask_tags("writer", mask, 12, 20);
       wf_tag(&mut tags);
       (Val::Writer(gen_writer(r, mask, wf)), tags)
     }
@@ -1147,7 +1270,11 @@ fn gen_value(r: &mut Rng, k: usize) -> (Val, Vec<String>) {
       let mask = (j.wrapping_mul(2654435761) >> 10) & 0x1FFF;
       (Val::Topic(gen_topic(r, mask)), mask_tags("topic", mask, 12, 13))
     }
-    _ => (Val::Pmd(gen_pmd(r)), vec![]),
+    _ => match j % 4 {
+      0 => (Val::PKey(gen_guid(r)), vec![]),
+      1 => (Val::EKey(gen_guid(r)), vec![]),
+      _ => (Val::Pmd(gen_pmd(r)), vec![]),
+    },
   }
 }
 
@@ -1170,10 +1297,10 @@ pub fn run(args: &Args) -> i32 {
       let mut r = Rng::for_case(args.seed, idx);
       let e = gen_endianness(&mut r);
       let (v, tags) = gen_value(&mut r, k);
-      if r.chance(1, 5) {
+      if r.chance(1, 4) {
         // hostile stream
         if let Some(bytes) = v.encode(e) {
-          let (b, how) = mutate(&mut r, &bytes);
+          let (b, how) = mutate(&mut r, e, &bytes);
           if has_unmodelled_pid(e, &b) {
             emit_raw(&mut out, idx, e, v.kind(), &bytes, "skipped_security_pid");
           } else {
